@@ -29,7 +29,7 @@ CHECKS = {
          "Trusted: monotonic clock for lower bounds (sound under load); absence of dials after Disconnect observed for 3x max back-off.", "5/C09"),
 
  "C01": ("fault_enumeration", "obligation ledger over the recorded trace of the real ReconnectClient against a fault-injecting broker model; sentinel quiescence / certified-stuck",
-         "Every single cut (4 kinds) at every request-packet ordinal of 10 canonical workloads x configurations x client kinds (library ReconnectClient; RetryClient driven through the Retryer contract by a hand-written loop in both Resubscribe/Retry orders), exhaustive cut pairs on short workloads (thorough), sampled pairs/triples, seeded random plans up to 6 faults incl. refused/absent CONNACK and dial failures, silently dropped acknowledgements with a ResponseTimeout, and steered submissions while the reconnect goroutine is inside the Dialer / a ConnectOption and from inside the ConnState(Active) / OnError callbacks; make-before-break client switches by the hand-written loops with requests in flight; a fuzz mode drawing workload, configuration, client kind, transport behaviour and plan at random. Every accepted QoS>=1 publish, subscribe, unsubscribe must have an acknowledgement sent and consumed by quiescence; certified-stuck and live-lock (25 healthy connections without progress) are violations.",
+         "Every single cut (4 kinds) at every request-packet ordinal of 14 canonical workloads x configurations x client kinds (library ReconnectClient; RetryClient driven through the Retryer contract by a hand-written loop in both Resubscribe/Retry orders), exhaustive cut pairs on short workloads (thorough), sampled pairs/triples, seeded random plans up to 6 faults incl. refused/absent CONNACK and dial failures, silently dropped acknowledgements with a ResponseTimeout, and steered submissions while the reconnect goroutine is inside the Dialer / a ConnectOption and from inside the ConnState(Active) / OnError callbacks; make-before-break client switches by the hand-written loops with requests in flight; a fuzz mode drawing workload, configuration, client kind, transport behaviour and plan at random. Every accepted QoS>=1 publish, subscribe, unsubscribe must have an acknowledgement sent and consumed by quiescence; certified-stuck and live-lock (25 healthy connections without progress) are violations.",
          "Trusted: broker model as specification of the peer; fault model of DESIGN.md 2.4; quiescence argument (two sentinels, FIFO task goroutine). Eventually is restated as quiescence after faults stop / certified stuck.", "5/C01"),
  "C02": ("fault_enumeration", "broker delivery-log count per message tag (exactly-once) over exhaustive single and pair cut sweeps",
          "QoS 2 workloads with 1-3 messages against a session-keeping broker model with both receiver methods; all single cuts and all pairs of cuts of 4 kinds over every CONNECT/PUBLISH/PUBREL ordinal, random plans and the fuzz mode beyond, incl. messages accepted before the first connection exists; delivery count must be exactly 1 at quiescence (0 in a certified-stuck or live-locked run is a violation too) and nothing may be transmitted for a message after its PUBCOMP was consumed and the client moved on.",
